@@ -66,7 +66,8 @@ inductive Ev
   | added (name : Nat) (addr : Addr) (seq : Nat)   -- addTimer returned this id
   | registered (addr : Addr) (seq : Nat) (exp : Time)   -- addTimerInLoop inserted the timer
   | restarted (addr : Addr) (seq : Nat) (exp : Time)    -- ghost: reset() restarted the repeating timer with this deadline
-  | cancel (addr : Addr) (seq : Nat) (inBatch : Bool)   -- cancelInLoop processed
+  /-- cancelInLoop processed: `inBatch` = callingExpiredTimers_, `found` = the pair was in activeTimers_ (ghost) -/
+  | cancel (addr : Addr) (seq : Nat) (inBatch found : Bool)
   | processed (k : Nat)
   | uaf (addr : Addr)                -- a freed Timer was dereferenced
 deriving Repr, DecidableEq
@@ -141,7 +142,7 @@ def addInLoop (s : TQ) (a : Addr) : TQ :=
 
 /-- `TimerQueue::cancelInLoop(timerId)` -/
 def cancelInLoop (s : TQ) (id : TimerId) : TQ :=
-  let s := emit s (.cancel id.addr id.seq s.calling)
+  let s := emit s (.cancel id.addr id.seq s.calling (decide ((id.addr, id.seq) ∈ s.active)))
   let found : Bool := decide ((id.addr, id.seq) ∈ s.active)
   if cancelErases found then
     let s := chk s id.addr
